@@ -714,12 +714,12 @@ ENC = {"ebv_subset": "subset", "ebv_real": "real", "ebv_integer": "integer", "eb
        "ocs_subset": "subset", "ocs_real": "real", "ohv_mate": "subset", "uc_mate": "subset", "random_subset": "subset"}
 
 
-def _pref_sum(mat, pw=None, **kwargs):
-    """harness-declared preference: weighted sum of the (minimised) objectives"""
-    return numpy.array([math.fsum(float(v) * w for v, w in zip(row, pw)) for row in numpy.asarray(mat)], dtype=float)
+def _pref_sum(mat, pw=None, p0=0.0, **kwargs):
+    """harness-declared preference: weighted sum of the (minimised) objectives, about the origin p0"""
+    return numpy.array([math.fsum(float(v) * w for v, w in zip(row, pw)) + p0 for row in numpy.asarray(mat)], dtype=float)
 
 
-GA_SETTINGS = ("ncross", "nparent", "nmating", "nprogeny", "unscale", "obj_wt", "ndset_wt", "pw", "unique", "upct")
+GA_SETTINGS = ("ncross", "nparent", "nmating", "nprogeny", "unscale", "obj_wt", "ndset_wt", "pw", "p0", "unique", "upct")
 
 
 @st.composite
@@ -732,6 +732,11 @@ def ga_params(draw, proto, t, nobj, prev=None):
          "obj_wt": [draw(st.sampled_from([1.0, 1.0, -1.0, 2.0])) for _ in range(nobj)],
          "ndset_wt": draw(st.sampled_from([1.0, 1.0, -1.0, 2.5])),
          "pw": [draw(st.sampled_from([1.0, 0.5, 2.0, -1.0, 0.0])) for _ in range(nobj)]}
+    # the declared preference in other units and about another origin (weighted sum * 2^k + p0): the scores of a front then
+    # differ by far less than their magnitude (or are all tiny) while their order is unchanged
+    pu = 2.0 ** draw(st.sampled_from([0, 0, 0, -40, -60, 30]))
+    s["pw"] = [w * pu for w in s["pw"]]
+    s["p0"] = pu * draw(st.sampled_from([0.0, 0.0, 0.0, 2.0 ** 12, -2.0 ** 20, 2.0 ** 24, 2.0 ** 30, -2.0 ** 36]))
     if mate:
         s["unique"] = draw(st.booleans()) if (proto == "ohv_mate" or prev is not None) else True
         s["upct"] = 0.1 if prev is None else draw(st.sampled_from([0.1, 0.3, 0.02]))
@@ -799,7 +804,7 @@ def _ga_protocol(case):
         kw["obj_trans"] = latent_sum
     if nobj > 1 and case["pref"] == "sum":
         kw["ndset_trans"] = _pref_sum
-        kw["ndset_trans_kwargs"] = {"pw": list(case["pw"])}
+        kw["ndset_trans_kwargs"] = {"pw": list(case["pw"]), "p0": case.get("p0", 0.0)}
     if proto.startswith("ebv"):
         klass = {"subset": EstimatedBreedingValueSubsetSelection, "real": EstimatedBreedingValueRealSelection,
                  "integer": EstimatedBreedingValueIntegerSelection, "binary": EstimatedBreedingValueBinarySelection}[enc]
@@ -855,8 +860,8 @@ def _ga_reassign(prot, case, prev, cur):
         prot.obj_wt = numpy.array(cur["obj_wt"], dtype=float)
     if cur["ndset_wt"] != prev["ndset_wt"]:
         prot.ndset_wt = cur["ndset_wt"]
-    if cur["pw"] != prev["pw"] and case["nobj"] > 1 and case["pref"] == "sum":
-        prot.ndset_trans_kwargs = {"pw": list(cur["pw"])}
+    if (cur["pw"] != prev["pw"] or cur.get("p0", 0.0) != prev.get("p0", 0.0)) and case["nobj"] > 1 and case["pref"] == "sum":
+        prot.ndset_trans_kwargs = {"pw": list(cur["pw"]), "p0": cur.get("p0", 0.0)}
     if proto in ("ohv_mate", "uc_mate") and cur["unique"] != prev["unique"]:
         prot.unique_parents = cur["unique"]
     if proto == "uc_mate" and cur["upct"] != prev["upct"]:
@@ -928,7 +933,7 @@ def _ga_use(case, ctx, k, prot, w):
         ctx.label("front_size>=2", len(F) >= 2)
         ctx.label("front_size>=3", len(F) >= 3)
         if case["pref"] == "sum":
-            ref = [case["ndset_wt"] * math.fsum(v * pw for v, pw in zip(r, case["pw"])) for r in F]
+            ref = [case["ndset_wt"] * (math.fsum(v * pw for v, pw in zip(r, case["pw"])) + case.get("p0", 0.0)) for r in F]
         else:
             ref = [case["ndset_wt"] * d for d in ref_vec_dist(F, [1.0] * nobj, [1.0] * nobj)]
         ctx.label("pref=" + case["pref"])
@@ -938,8 +943,17 @@ def _ga_use(case, ctx, k, prot, w):
             ctx.label("preference_score_nan_with_front>=2")
         if not nan:
             best = max(ref)
-            mag = max(abs(v) for v in ref)
-            tolp = 64 * EPS * max(1.0, mag) * nobj
+            if case["pref"] == "sum":
+                # rounding of a weighted sum about p0: relative to the magnitude of its terms (no absolute floor: units may be 2^-60)
+                mag = abs(case["ndset_wt"]) * (max(math.fsum(abs(v * pw) for v, pw in zip(r, case["pw"])) for r in F) + abs(case.get("p0", 0.0)))
+                ctx.label("pref=sum:origin_far_from_scores", abs(case.get("p0", 0.0)) > 1024.0 * (max(ref) - min(ref)) and len(F) >= 2)
+                ctx.label("pref=sum:tiny_units", 0.0 < mag < 1e-8)
+            else:
+                mag = max(1.0, max(abs(v) for v in ref))
+            tolp = 64 * EPS * mag * nobj
+            # a strictly worse point that a scale-unaware closeness test (1e-8 + 1e-5 |max|) would call tied, listed before the maximiser
+            ctx.label("worse_point_within_1e-5_of_best_listed_earlier", any(
+                ref[i] < best - tolp and best - ref[i] <= 1e-8 + 1e-5 * abs(best) for i in range(ref.index(best))))
             ctx.label("preference_has_unique_maximiser", sum(1 for v in ref if v >= best - tolp) == 1)
             ctx.check(any(ref[i] >= best - tolp for i in match), "select.choice_is_not_argmax_of_declared_preference",
                       lambda: "chosen front row(s) %s score %s; maximum %r at row %d; scores %s; %s" % (
@@ -1366,9 +1380,10 @@ SUBCHECKS = [
                               "reuse:use_2", "reuse:use_3", "reuse:changed_unscale", "reuse:population_same", "reuse:population_same_size")),
     SubCheck("select_ga", check_select_ga, ga_case(), quick=80, thorough=1500, shards_quick=6,
              rule="generated population x 10 protocol/encoding combinations x single/multi-objective x tiny GA budgets x preference "
-                  "transformation (bundled default | harness weighted sum, ndset_wt of either sign) x 0-2 further uses of the same "
+                  "transformation (bundled default | harness weighted sum in units 2^-60..2^30 about an origin up to 2^36 away, ndset_wt of either sign) x 0-2 further uses of the same "
                   "protocol object after reassigning settings / exchanging the population; non-trivial = >= 2 table slots and >= 3 taxa",
-             required_labels=("front_size>=2", "preference_has_unique_maximiser", "pref=sum", "pref=default", "reuse:use_2", "reuse:changed_unique",
+             required_labels=("front_size>=2", "preference_has_unique_maximiser", "pref=sum", "pref=default", "pref=sum:origin_far_from_scores",
+                              "pref=sum:tiny_units", "worse_point_within_1e-5_of_best_listed_earlier", "reuse:use_2", "reuse:changed_unique",
                               "reuse:population_same", "reuse:population_same_size", "reuse:same_ntaxa_and_nparent_other_setting_changed")
              + tuple("proto=" + p for p in PROTOCOLS)),
     SubCheck("mate_trunc", check_mate_trunc, mate_trunc_case(), quick=100, thorough=1500, shards_quick=4,
